@@ -741,12 +741,18 @@ def run(ctx):
                 "[-N,N+2], step None/1/2/3) exhaustively without pre-constraint, and for every pre-constraint [a:s:b] "
                 "(s ≤ 3) a seeded sample (quick) / all forms (thorough); rank 1-3 with extents 1..6 sampled: arrays, grids "
                 "with output_grid on/off, Ellipsis, short tuples, pre-constraints with strides; DAP4 proxies at request "
-                "level. A case is non-trivial when its numpy selection is non-empty (others are outside the property and "
+                "level (mocked GET) and end to end against the reference DAP4 server: rank 1 every index form without "
+                "pre-constraint (int32; float64/uint8/int16 on N = 4), every pre-constraint [a:s:b] inside the extent "
+                "(s ≤ 3) with sampled (quick) / all (thorough) forms, rank 1-3 sampled with leading-axis pre-constraints, "
+                "dtypes, both byte orders, named/anonymous dimensions. A case is non-trivial when its numpy selection is non-empty (others are outside the property and "
                 "skipped); distinct by (kind, shape, pre-constraint, index)")
     ctx.assumptions = ["numpy basic indexing is the oracle and the specification function (`sel`, `npSlices`: one "
                        "selection per axis)",
-                       "DAP4: no DAP4 server is exercised; the issued request is parsed with pydap's DAP4 parse_ce and "
-                       "applied to the source with numpy"]
+                       "DAP4: pydap has no DAP4 server; the server is the independent reference harness/oracle/refdap4.py "
+                       "(numpy slicing, clips a last index beyond the extent like numpy) wrapped by props/c02_dap4.py so that "
+                       "a dap4.ce in the DMR request declares the constrained shape (shared Dimensions resized, or anonymous "
+                       "Dim sizes); every answer it sends is re-read by a second decoder and compared with numpy on the "
+                       "received hyperslab before pydap's result is judged"]
     ctx.proof_phase()
     explore(ctx, ctx.tier)
     return ctx.finish(search=lambda c: explore(c, "thorough", search=True))
